@@ -58,6 +58,12 @@ CLAIMS["C16"] = dict(
 CLAIMS["C17"] = dict(
     text="Sentences generated from the RFC 4512 ABNF of the three descriptions (single/parenthesised lists, 0..2 extensions, AD quoted SYNTAX, quoted-string pieces incl. \\27 \\5c \\5C and non-ASCII, every SP/WSP position varied) carry the object the grammar denotes; z3 proves the real parser returns equal fields. Totality: 2-character symbolic windows over the sentences yield a definition or ValueError on every path.",
     ref="DESIGN.md 3/C17", technique="symbolic execution of the real parser on grammar sentences with symbolic holes (SX) + z3; generator-with-semantics as oracle")
+CLAIMS["C11"] = dict(
+    text="Joint bounded model checking on the real LDAPClient/LDAPServer joined by two byte pipes: every schedule of 3 (quick) / 4 (thorough) actions out of 14 (client calls, matching-kind server responses incl. notice of disconnection, whole / one-octet / half deliveries in both directions), every schedule of 5 / 6 whole-delivery actions, and 15 scripted scenarios up to 10 actions, with symbolic result codes and payloads. z3 proves after every action: no exception but the designed terminations, every received message equals the next sent one, agreement on state and operations in progress whenever both pipes are empty. The one-step joint induction of DESIGN.md was not built; the claim is the BMC bound.",
+    ref="DESIGN.md 3/C11", technique="symbolic execution of both real sessions along bounded schedules (joint BMC, SX) + z3 validity queries")
+CLAIMS["C19"] = dict(
+    text="Two real sessions run schedules of two calls with symbolic arguments alone (each in a freshly loaded copy of the library) and in all 6 interleavings (in a third copy); z3 proves every transcript entry (outcome, result, state, emitted bytes) equal. All 8 subsets of custom control / filter / credential registered on one session only: symbolic payloads decode to the custom type there and to the generic control / ProtocolError elsewhere; duplicates raise ValueError; the other session's choice lists are unchanged.",
+    ref="DESIGN.md 3/C19", technique="symbolic execution of two real sessions in isolated vs interleaved order on fresh library copies (SX) + z3 transcript-equality queries")
 PENDING = {}
 
 def main():
